@@ -46,6 +46,9 @@ pub struct Ctx<'a> {
     pub margin: f64,
     pub verdict: Verdict,
     pub known_sigs: &'a [String],
+    /// set by the enumerated exact-grid sub-checks: the argument the generated sub-check
+    /// must use instead of the one it drew
+    pub forced: Option<(f64, f64)>,
 }
 
 impl<'a> Ctx<'a> {
@@ -61,6 +64,7 @@ impl<'a> Ctx<'a> {
             nontrivial: false,
             key: 0xcbf29ce484222325,
             margin: f64::NEG_INFINITY,
+            forced: None,
             verdict: Verdict::Pass,
             known_sigs,
         }
